@@ -626,6 +626,11 @@ impl<'a, T: Core> Application<'a, T> {
     pub fn arguments(&self) -> impl Iterator<Item = Terminal<'a, T>> {
         self.node().children().skip(1).filter_map(Terminal::cast)
     }
+
+    /// Returns all the arguments, which are either terminals or unary operations on terminals.
+    pub fn argument_nodes(&self) -> impl Iterator<Item = NodeRef<'a, T, Gram>> {
+        self.node().children().skip(1)
+    }
 }
 
 impl<'a, T: Core> XferList<'a, T> {
